@@ -53,10 +53,32 @@ func runC19(c *runCtx) error {
 			pids = append(pids, 101+i)
 		}
 		thr := 1 + r.Intn(min(3, m))
+		// who approves this merge (decided first, so that global thresholds can be placed around the count)
+		var approvers []int
+		if r.Intn(8) != 0 {
+			for _, i := range r.Perm(5)[:1+r.Intn(4)] {
+				approvers = append(approvers, []int{4, 5, 6, 7, 1}[i])
+			}
+		}
+		counted := 0 // approvers that are principals of the branch rule
+		for _, a := range approvers {
+			for _, p := range pids {
+				if devKey(p) == a {
+					counted++
+				}
+			}
+		}
 		var globals []wGlobal
-		if r.Intn(4) == 0 {
+		if r.Intn(3) == 0 {
 			pats := [][]string{{"git:" + refMain}, {"git:refs/heads/nomatch"}, {"git:*"}}[r.Intn(3)]
-			globals = []wGlobal{{Kind: "threshold", Name: "g", Pats: pats, K: 1 + r.Intn(3)}}
+			k := 1 + r.Intn(3)
+			if r.Intn(2) == 0 { // at, or one above, what the approvals already give
+				k = counted + r.Intn(2)
+				if k < 1 {
+					k = 1
+				}
+			}
+			globals = []wGlobal{{Kind: "threshold", Name: "g", Pats: pats, K: k}}
 		}
 		// principals sharing keys are left to the verifier-level model (C05 correspondence): the order in which
 		// State.allPrincipals lists principals is a map order and matters once keys are shared
@@ -77,12 +99,8 @@ func runC19(c *runCtx) error {
 		w.Events = append(w.Events, wEvent{Kind: "ref", Ref: refFeat, Commit: featTip, Signer: 4 + r.Intn(4)})
 		mergeTree := featTip // fast-forward: the feature tip's tree
 		// approvals for exactly this merge (or, sometimes, for something else)
-		if r.Intn(8) != 0 {
-			ns := 1 + r.Intn(4)
-			signers := []int{}
-			for _, i := range r.Perm(5)[:ns] {
-				signers = append(signers, []int{4, 5, 6, 7, 1}[i])
-			}
+		if len(approvers) > 0 {
+			signers := approvers
 			a := wAuthz{Ref: refMain, From: 2, To: mergeTree, PathRef: refMain, PathFrom: 2, PathTo: mergeTree, Signers: signers}
 			if r.Intn(8) == 0 {
 				a.To, a.PathTo = 2, 2 // approvals for a different result
@@ -175,6 +193,10 @@ func c19FilesCase(c *runCtx, r *rand.Rand, wi int) error {
 	t.Defs = map[int][]int{101: {4}, 102: {5}, 103: {6}, 104: {7}}
 	t.Rules = []hRule{{Name: "protect-main", Patterns: []string{"git:" + refMain}, Pids: pids, Thr: thr},
 		{Name: "files", Patterns: []string{fpat}, Pids: fpids, Thr: 1}}
+	if r.Intn(4) == 0 { // no rule protects the branch itself: only the file rule stands between a change and main
+		t.Rules = t.Rules[1:]
+		thr = 1
+	}
 	pol := &wPolicy{RootVersion: 1, RootKeys: []int{1}, RootThr: 1, TargetsKeys: []int{2}, TargetsThr: 1, HasTargetsRole: true, RootSigners: []int{1}, Files: []*wFile{t}}
 	fileKey := devKey(fpids[0])
 	w := &wWorld{}
